@@ -635,7 +635,10 @@ class meta_register:
         }
 
     # an unknown flavour while running is a usage error; the runtime's own three flavours never raise
-    raises = {"RuntimeError": lambda c, self, payloads, flavour, exc: c.And(c.Not(c.old(self)._runners.has(flavour)), c.Not(known_flavour(c, flavour)))}
+    # an unknown flavour is reported (RuntimeError; or whatever rendering that unknown object's name raises - the property is about the
+    # runtime's own three flavours, for which nothing may be raised)
+    raises = {"RuntimeError": lambda c, self, payloads, flavour, exc: c.And(c.Not(c.old(self)._runners.has(flavour)), c.Not(known_flavour(c, flavour))),
+              "TypeError": lambda c, self, payloads, flavour, exc: c.And(c.Not(c.old(self)._runners.has(flavour)), c.Not(known_flavour(c, flavour)))}
 
     loops = {
         0: Loop(
@@ -916,8 +919,9 @@ class unqueue_payloads:
     def ensures(c, self):
         return {"no-queue-left": self._runner_queues.keys.len == 0}
 
-    # a queued flavour without runner is reported (RuntimeError from register_payload); the runtime's own flavours never raise
-    raises = {"RuntimeError": lambda c, self, exc: True}
+    # a queued flavour without runner is reported (RuntimeError - or the TypeError of rendering that unknown object's name - from
+    # register_payload); the runtime's own flavours never raise
+    raises = {"RuntimeError": lambda c, self, exc: True, "TypeError": lambda c, self, exc: True}
 
     loops = {
         0: Loop(
@@ -1360,3 +1364,162 @@ class runner_wiring:
             "exactly-one-asyncio.run-in-MetaRunner.run": calls.get("asyncio.run") == ["meta_runner:run"],
             "no-other-event-loop-is-created-or-driven": set(calls) <= {"trio.run", "asyncio.run"},
         }
+
+
+# ================================================================================ where service units come from (C03)
+from pyvc import setsum as _SS
+from pyvc.values import VTuple as _VT, VDict as _VD, SV as _SV
+from pyvc.engine import fresh_val as _fv
+import pyvc.ext_libs as _XL
+
+REFERENT = z3.Function("weakref_referent", Z.Val, Z.Val)     # the object a weakref.ref was created for (ghost)
+
+
+def _weakref_ref(I, args, kwargs):
+    """weakref.ref(obj) (assumed): a new reference object; calling it yields obj while obj is alive, None afterwards"""
+    ctx = I.ctx
+    r = ctx.alloc(None, WeakRef)
+    ctx.assume(REFERENT(r.t) == ctx.to_val(args[0]).t)
+    return r
+
+
+def _active_units(I):
+    """ServiceUnit.__active_units__: the class-level WeakSet of all units - state shared by every call: arbitrary on entry"""
+    ctx = I.ctx
+    sv = ctx.ghost.get("c03_active_units")
+    if sv is None:
+        _SS.ensure_axioms(ctx)
+        t = z3.Const("ServiceUnit_active_units", Z.Val)
+        sv = ctx.typed(t, _SS.TSet(Unit))
+        ctx.assume(z3.And(Z.is_refv(t), Z.Val.id(t) > 0, Z.Val.id(t) < ctx.alloc0))
+        ctx.ghost["c03_active_units"] = sv
+    return sv
+
+
+def install(E):
+    E.externals["weakref.ref"] = _weakref_ref
+    E.externals["classattr:" + RUN + "service:ServiceUnit.__active_units__"] = _active_units
+
+
+ServiceLike = TAbs("service-instance", fields={"__service_unit__": TAny(), "run": TAny()}, events=False)
+
+
+@contract(RUN + "service:ServiceUnit.__init__", props=["C03"])
+class unit_init:
+    """a new unit: refers (weakly) to exactly this service, carries exactly this flavour, is not started, and is registered in the set
+    of active units - which is where the polling cycle finds it"""
+    params = dict(self=Unit, service=ServiceLike, flavour=TAny())
+    new_object = "self"
+
+    def requires(c, self, service, flavour):
+        return known_flavour(c, flavour)
+
+    def writes(c, self, service, flavour):
+        au = c.ctx.ghost.get("c03_active_units")
+        return [(self, "service"), (self, "flavour"), (self, "_started")] + ([("all", "$mhas", lambda x, a=Z.Val.id(au.t): x == a)] if au is not None else [("all", "$mhas", lambda x: True)])
+
+    def ensures(c, self, service, flavour):
+        au = c.ctx.ghost.get("c03_active_units")
+        if au is None:
+            return {"registered-among-the-active-units": False}
+        mem = z3.Select(c.ctx.rd(c.new_heap, "$mhas"), Z.Val.id(au.t))
+        mem0 = z3.Select(c.ctx.rd(c.old_heap, "$mhas"), Z.Val.id(au.t))
+        return {"refers-to-this-service": REFERENT(self.service.t) == service.t,
+                "carries-this-flavour": self.flavour.t == flavour.t,
+                "not-started-yet": c.Not(Z.Val.b(self._started.t)),
+                "registered-among-the-active-units-and-nobody-else-is-touched": mem == z3.Store(mem0, self.t, z3.BoolVal(True))}
+
+    raises = {"AssertionError": lambda c, self, service, flavour, exc: False}
+
+
+def _base_new_after(c, ctx, outcome, value, self, **rest):
+    ctx.ghost.setdefault("c03_base_new", []).append((outcome, value))
+
+
+_base_new = amethod("base.__new__", {"self": None, "*args": None, "**kw": None}, result=ServiceLike,
+                    doc="the class's original __new__ (for a subclass of an already decorated service class: the base's __new_service__, which has already "
+                        "attached a unit of the BASE's flavour): returns the instance; anything may already hang on its __service_unit__",
+                    emits_after=_base_new_after, raises={"BaseException": lambda c, exc, **k: True})
+BaseNew = TFn(_base_new)
+_base_new.params["self"] = BaseNew
+
+
+@contract(RUN + "service:service.service_unit_decorator.__new_service__", props=["C03"])
+class new_service:
+    """creating an instance of a class decorated with @service(flavour): the instance gets ONE NEW unit of exactly the decorator's
+    flavour (also when a decorated base class already attached a unit of another flavour), registered among the active units"""
+    params = {"cls": lambda ctx: ctx.repo.get("cobald.controller.linear:LinearController"), "*args": lambda ctx: _VT([_SV(_fv("a0"), TAny())]), "**kwargs": lambda ctx: _VD({"k": _SV(_fv("kv"), TAny())})}
+    result = TAny()
+    has_events = False
+
+    def closure_env(ctx, I, bound):
+        new = ctx.typed(_fv("orig_new"), BaseNew)
+        ctx.assume(z3.And(Z.Val.id(new.t) > 0, Z.Val.id(new.t) < ctx.alloc0))
+        ctx.assume_class(new.t, BaseNew)
+        fl = ctx.typed(_fv("flavour"), TAny())
+        from pyvc.contracts import Spec
+        sp = Spec(ctx, ctx.snapshot(), ctx.snapshot())
+        ctx.assume(known_flavour(sp, sp.view(fl, sp.new_heap)))
+        env = {"__new__": new, "flavour": fl}
+        ctx.ghost["closure"] = env
+        _active_units(I)
+        return [env]
+
+    def writes(c, cls, args, kwargs):
+        return [("all", "__service_unit__", lambda x: True), ("all", "$mhas", lambda x: True)]
+
+    def ensures(c, cls, args, kwargs, result):
+        ctx = c.ctx
+        outs = ctx.ghost.get("c03_base_new", [])
+        au = ctx.ghost.get("c03_active_units")
+        if len(outs) != 1 or au is None:
+            return {"the-instance-comes-from-the-original-__new__": False}
+        inst = outs[0][1]
+        unit_t = z3.Select(ctx.rd(c.new_heap, "__service_unit__"), Z.Val.id(inst.t))
+        unit = c.view_term(unit_t, Unit, c.new_heap)
+        mem = z3.Select(ctx.rd(c.new_heap, "$mhas"), Z.Val.id(au.t))
+        return {"the-instance-comes-from-the-original-__new__": result.t == inst.t,
+                "it-carries-a-NEW-unit-of-the-decorators-flavour-for-this-very-instance": c.And(Z.is_refv(unit_t), Z.Val.id(unit_t) >= ctx.alloc0, unit.flavour.t == ctx.ghost["closure"]["flavour"].t,
+                                                                                               REFERENT(unit.service.t) == inst.t, c.Not(Z.Val.b(unit._started.t))),
+                "that-unit-is-among-the-active-units": z3.Select(mem, unit_t)}
+
+    raises = {"BaseException": lambda c, cls, args, kwargs, exc: True}
+
+
+@contract("cobald.daemon.debug:pretty_ref", props=["C03"], skip_body=True, kind="abstract")
+class pretty_ref_iface:
+    """pretty_ref(obj): the text module:qualname of the object - or, for an object whose __module__ is not a string (a bound method of
+    a builtin: __module__ is None), a TypeError out of the string concatenation (assumed from reading the function; not verified)"""
+    params = {"obj": TAny()}
+    result = TStr()
+    raises = {"TypeError": lambda c, obj, exc: True}
+    exact_raises = True
+
+
+@contract("static:weakset-snapshot-is-atomic", props=["C03"], kind="static")
+class weakset_snapshot:
+    """the ASSUMED contract of ServiceUnit.units() - `a snapshot of the live units, each once, safe against units being created or
+    collected concurrently` - rests on ONE fact about CPython: set(some_set) is a single GIL-atomic call.  Decided on the AST of
+    _weakset_copy: the backing set ws.data is copied by exactly that call before anything iterates, and only the copy is iterated."""
+
+    def static(E):
+        import ast
+        fi = E.repo.get(RUN + "service:_weakset_copy")
+        out = {"_weakset_copy-exists": fi is not None}
+        if fi is None:
+            return out
+        body = [st for st in fi.node.body if not (isinstance(st, ast.Expr) and isinstance(st.value, ast.Constant))]
+        first = body[0] if body else None
+        # any single C-level copy of the backing set counts: set(x.data), frozenset(..), list(..), tuple(..), x.data.copy()
+        snap = (isinstance(first, ast.Assign) and len(first.targets) == 1 and isinstance(first.targets[0], ast.Name) and isinstance(first.value, ast.Call)
+                and ((ast.unparse(first.value.func) in ("set", "frozenset", "list", "tuple") and len(first.value.args) == 1 and ast.unparse(first.value.args[0]).endswith(".data"))
+                     or (ast.unparse(first.value.func).endswith(".data.copy") and not first.value.args)))
+        out["the-backing-set-is-copied-by-one-atomic-call-first"] = bool(snap)
+        if snap:
+            name = first.targets[0].id
+            iterated = [ast.unparse(g.iter) for n in ast.walk(fi.node) for g in getattr(n, "generators", [])] + [ast.unparse(n.iter) for n in ast.walk(fi.node) if isinstance(n, (ast.For, ast.AsyncFor))]
+            roots = [x for x in iterated if not x.startswith("(")]      # the inner generator expression is iterated by the outer one
+            out["only-the-copy-is-iterated-never-the-weak-set-itself"] = all(x == name for x in roots) and not any(".data" in x for x in iterated)
+            units = E.repo.get(RUN + "service:ServiceUnit.units")
+            out["units()-is-that-copy-of-the-active-units"] = units is not None and "_weakset_copy(cls.__active_units__)" in ast.unparse(units.node)
+        return out
